@@ -13,7 +13,7 @@ def run(ctx):
     quick = ctx.tier == "quick"
     ctx.build_harness()
     ctx.tlc_must_pass("MC_Numbers", "MC_Numbers", timeout=600)
-    shards = 16
+    shards = 16 if quick else 64          # <= ~250 k events per trace file
     nrand = 6000 if quick else 400000
     p, _ = ctx.run_harness(["drive-c08", "-out", ctx.tmp, "-shards", str(shards),
                             "-random", str(nrand)])
